@@ -9,8 +9,8 @@ use std::collections::BTreeSet;
 /// sections, mirrors, sharding function, pool mode. One probe client per (user, shard id written
 /// in the file, role), one for the default shard, one admin.
 pub fn c15(rng: &mut Rng, _thorough: bool, idx: u64) -> Spec {
-    // every 35th run: a valid file with more than ten shards ("10" sorts before "2" as text)
-    let many = idx % 35 == 34;
+    // every 37th run: a valid file with more than ten shards ("10" sorts before "2" as text)
+    let many = idx % 37 == 36;
     let nshards = if many { rng.range(11, 13) as usize } else { rng.range(1, 3) as usize };
     let replicas = if many { 0 } else { rng.range(0, 1) as usize };
     let mut cfg = sharded_pool("transaction", 2, nshards, replicas);
@@ -22,7 +22,7 @@ pub fn c15(rng: &mut Rng, _thorough: bool, idx: u64) -> Spec {
     cfg.pools[0].lb = rng.pick(&["random", "loc"]).to_string();
     let kinds = [
         "valid", "valid", "valid", "shard_ids_start_at_1", "shard_ids_with_gap", "shard_id_not_numeric", "shard_id_huge", "shard_id_negative", "shard_id_leading_zero", "two_primaries", "no_primary", "duplicate_server",
-        "default_shard_beyond_range", "default_shard_last", "default_shard_random", "default_shard_random_healthy", "default_shard_bogus", "default_role_bogus", "default_role_replica_without_replicas",
+        "default_shard_beyond_range", "default_shard_last", "default_shard_random", "default_shard_random_healthy", "default_shard_bogus", "default_role_bogus", "default_role_capitalised", "default_role_replica_without_replicas",
         "user_without_password", "auth_query_incomplete", "min_pool_size_above_pool_size", "pool_size_zero", "invalid_sharding_key_regex", "invalid_shard_id_regex", "plugins_without_parser",
         "rw_split_without_parser", "mirror_of_absent_server", "sharding_function_bogus", "pool_mode_bogus", "automatic_sharding_key_unqualified", "no_servers_in_shard", "same_server_in_two_shards", "duplicate_user_names",
     ];
@@ -100,6 +100,10 @@ pub fn c15(rng: &mut Rng, _thorough: bool, idx: u64) -> Spec {
         "default_role_bogus" => {
             cfg.pools[0].default_role = "leader".into();
             expect = "reject";
+        }
+        "default_role_capitalised" => {
+            // refused or served, as the pooler pleases; but never accepted and then not servable
+            cfg.pools[0].default_role = rng.pick(&["Primary", "REPLICA", "Any", "PRIMARY", "Replica"]).to_string();
         }
         "default_role_replica_without_replicas" => {
             cfg.pools[0].default_role = "replica".into();
